@@ -7,6 +7,9 @@ package main
 // op line:  limits.<trusted|untrusted|build> <ver> <shape> <jsonlen> <type> <state_key|~> <sender> <room_id>
 // The event is reconstructed deterministically from the arguments: the fields as given, and a content
 // {"p":"xxx…"} padded so that the event JSON has exactly <jsonlen> bytes.
+//           limits.<build_unsigned|trusted_setunsigned> (same arguments): the padding sits under `unsigned` instead
+// ({"p":"xxx…"} as the proto-event's Unsigned handed to Build; resp. SetUnsigned on a small trusted event, then
+// CheckFields): the JSON of the event — what JSON() returns, what is stored and sent — has <jsonlen> bytes all the same.
 
 import (
 	"crypto/sha256"
@@ -83,6 +86,19 @@ func limitsBuild(verImpl gmsl.IRoomVersion, typ string, sk *string, sender, room
 	})
 	return eb.Build(time.UnixMilli(1700000000000), "b", "ed25519:1", limitsKey)
 }
+
+// limitsBuildU: the same proto-event with an empty content pad and the padding under `unsigned`
+func limitsBuildU(verImpl gmsl.IRoomVersion, typ string, sk *string, sender, room string, pad int) (gmsl.PDU, error) {
+	eb := verImpl.NewEventBuilderFromProtoEvent(&gmsl.ProtoEvent{
+		SenderID: sender, RoomID: room, Type: typ, StateKey: sk, Depth: 1,
+		Content:  spec.RawJSON(`{"p":""}`),
+		Unsigned: spec.RawJSON(`{"p":"` + strings.Repeat("x", pad) + `"}`),
+	})
+	return eb.Build(time.UnixMilli(1700000000000), "b", "ed25519:1", limitsKey)
+}
+
+// the bytes SetUnsigned({"p":""}) adds to an event without an unsigned member: `"unsigned":{"p":""},`
+const limitsUnsignedOverhead = len(`"unsigned":{"p":""},`)
 
 // coarseClass maps an error kind to the three classes the property distinguishes.
 func coarseClass(fine string) string {
@@ -185,6 +201,51 @@ func execLimitsFine(op string, args []string) string {
 			return "harness:len-mismatch-after-build"
 		}
 		return classifyEventErr(err)
+	case "build_unsigned":
+		empty := ""
+		var refSK *string
+		if sk != nil {
+			refSK = &empty
+		}
+		ref, err := limitsBuildU(verImpl, "t", refSK, "@s:b", "!r:b", 0)
+		if err != nil {
+			return "harness:reference-build-failed"
+		}
+		if len(ref.Unsigned()) == 0 {
+			return "harness:reference-build-without-unsigned"
+		}
+		skLen := 0
+		if sk != nil {
+			skLen = len(*sk)
+		}
+		pad := jsonLen - (len(ref.JSON()) + len(typ) - 1 + len(sender) - 4 + len(room) - 4 + skLen)
+		if pad < 0 {
+			return "harness:jsonlen-too-small"
+		}
+		ev, err := limitsBuildU(verImpl, typ, sk, sender, room, pad)
+		if err == nil && len(ev.JSON()) != jsonLen {
+			return "harness:len-mismatch-after-build"
+		}
+		return classifyEventErr(err)
+	case "trusted_setunsigned":
+		pad := jsonLen - limitsUnsignedOverhead - limitsMinLen(format, typ, sk, sender, room)
+		if pad < 0 {
+			return "harness:jsonlen-too-small"
+		}
+		sum := sha256.Sum256([]byte(limitsEventJSON(format, typ, sk, sender, room, 0, "")))
+		js := []byte(limitsEventJSON(format, typ, sk, sender, room, 0, base64.RawStdEncoding.EncodeToString(sum[:])))
+		ev, err := verImpl.NewEventFromTrustedJSON(js, false)
+		if err != nil {
+			return classifyEventErr(err)
+		}
+		ev2, err := ev.SetUnsigned(map[string]string{"p": strings.Repeat("x", pad)})
+		if err != nil {
+			return "harness:setunsigned-failed"
+		}
+		if len(ev2.JSON()) != jsonLen {
+			return "harness:len-mismatch-after-setunsigned"
+		}
+		return classifyEventErr(gmsl.CheckFields(ev2))
 	}
 	return "bad-op"
 }
@@ -295,8 +356,13 @@ func genLimits(o *Out, tier string, r *Rng) {
 			return
 		}
 		min := limitsMinLen(int(verImpl.EventFormat()), typ, sk, sender, room)
-		if op == "build" {
+		switch op {
+		case "build":
 			min += 400 // signatures, origin, hashes, prev_state: the exact overhead is measured in Exec
+		case "build_unsigned":
+			min += 400 + limitsUnsignedOverhead
+		case "trusted_setunsigned":
+			min += limitsUnsignedOverhead
 		}
 		if jsonLen < min {
 			jsonLen = min
@@ -364,6 +430,31 @@ func genLimits(o *Out, tier string, r *Rng) {
 		}
 	}
 	o.Sample("limits.trusted 10 type=" + mkType([2]int{128, 256})[:20] + "… (128 code points, 256 bytes)")
+
+	// 1a. the size limit is a limit on the event's JSON, whichever member carries the bytes: the padding under `unsigned`
+	// (the proto-event's Unsigned on build; SetUnsigned + CheckFields on an event at hand), JSON length at the boundary
+	for _, ver := range allVersions {
+		for _, op := range []string{"build_unsigned", "trusted_setunsigned"} {
+			for _, jl := range []int{0, 65535, 65536, 65537, 70000, 300000} {
+				if !thorough && !r.Chance(50) {
+					continue
+				}
+				e := ""
+				if r.Bool() {
+					emit(op, ver, jl, "m.x", nil, "@s:b", "!r:b")
+				} else {
+					emit(op, ver, jl, "m.x", &e, "@s:b", "!r:b")
+				}
+				o.Count("padding-under-unsigned")
+			}
+			if thorough || r.Chance(40) {
+				sz := Pick(r, limitSizes)
+				jl := Pick(r, []int{0, 65536, 65537})
+				emit(op, ver, jl, mkType(sz), mkSK(Pick(r, limitSizes)), "@s:b", "!r:b")
+				emit(op, ver, jl, "m.x", nil, mkSender(sz), "!r:b")
+			}
+		}
+	}
 
 	// 1b. receipt of events whose content hash does not match (they are redacted before the checks)
 	for _, ver := range allVersions {
